@@ -167,6 +167,56 @@ def run (cfg : Cfg) (extra : Nat → Option Int) (clock : Nat → Int) : St → 
     else (st, [], .done)
 
 
+/-! ### What the operating system must provide for the burst to terminate
+
+The loop only makes progress when `select` returns: with a datagram, or because its timeout
+(the earliest deadline of an outstanding packet) has passed.  These predicates state that on the
+environment (clock + batches); `RigModel.Props.C06.terminates_under_progress` assumes them. -/
+
+/-- the state after the transmit loop of the iteration that starts in `st` (the outstanding table
+`select`'s timeout is computed from) -/
+def afterFill (cfg : Cfg) (extra : Nat → Option Int) (clock : Nat → Int) (st : St) : St :=
+  (fill cfg extra clock (cfg.window + 1) st).1
+
+/-- **(b)** `select` returned by timeout: the iteration's final clock reading (`current_time`) is
+strictly later than the earliest deadline of an outstanding packet, i.e. than the deadline of some
+outstanding packet.  (Nothing is demanded when nothing is outstanding: `select` is then called
+with timeout 0.) -/
+def timedOut (cfg : Cfg) (extra : Nat → Option Int) (clock : Nat → Int) (st : St) : Bool :=
+  let st1 := afterFill cfg extra clock st
+  st1.outs.isEmpty || st1.outs.any (fun p => decide (p.2.deadline < clock (st1.k + 1)))
+
+/-- **(b), as `select` really behaves:** the final reading is not earlier than the earliest deadline
+(`select` waited for its timeout) and strictly later than the reading the timeout was computed
+from (a timed-out `select` takes time). -/
+def timedOutWeak (cfg : Cfg) (extra : Nat → Option Int) (clock : Nat → Int) (st : St) : Bool :=
+  let st1 := afterFill cfg extra clock st
+  st1.outs.isEmpty ||
+    (st1.outs.any (fun p => decide (p.2.deadline ≤ clock (st1.k + 1))) &&
+     decide (clock st1.k < clock (st1.k + 1)))
+
+/-- `Q` holds at the start of every iteration of the run that receives no datagram -/
+def alongRun (cfg : Cfg) (extra : Nat → Option Int) (clock : Nat → Int) (Q : St → Bool) :
+    St → List (List Dgram) → Bool
+  | _, [] => true
+  | st, b :: bs =>
+    if st.active then
+      (!b.isEmpty || Q st) &&
+        match iter cfg extra clock st b with
+        | (_, _, some _) => true
+        | (st', _, none) => alongRun cfg extra clock Q st' bs
+    else true
+
+/-- number of loop iterations the run performs on these batches -/
+def iterations (cfg : Cfg) (extra : Nat → Option Int) (clock : Nat → Int) : St → List (List Dgram) → Nat
+  | _, [] => 0
+  | st, b :: bs =>
+    if st.active then
+      match iter cfg extra clock st b with
+      | (_, _, some _) => 1
+      | (st', _, none) => 1 + iterations cfg extra clock st' bs
+    else 0
+
 /-! ### Specification of the property on the observable log (oracle run on the implementation)
 
 The log is what happens at the socket / callback boundary, in order. `origin` is ground truth
@@ -288,6 +338,28 @@ def handle (op : String) (j : Json) : R Json := do
     let (st, evs, r) := run cfg extra clock (St.init seq0) batches
     pure (Json.mkObj [("events", jList (evs.map evToJson)), ("result", resToJson r),
                       ("seq_ctr", jNat st.seqCtr), ("clock_reads", jNat st.k)])
+  | "progress" =>
+    -- the progress hypotheses of `terminates_under_progress` / `terminates_under_select`, evaluated on
+    -- a recorded environment, the number of iterations of the model and the proved bounds
+    let cfg : Cfg := { window := ← nat j "window", nTries := ← nat j "n_tries",
+                       modulus := ← nat j "modulus", defaultTimeout := ← int j "timeout" }
+    let extraL ← ints j "extra"
+    let extraA := extraL.toArray
+    let extra : Nat → Option Int := fun i => extraA[i]?
+    let clockL ← ints j "clock"
+    let clockA := clockL.toArray
+    let clock := clockOfArray clockA (clockL.getLastD 0)
+    let batches ← (← arr j "batches").mapM (fun b => do (← asArr b).mapM dgramOfJson)
+    let seq0 ← nat j "seq0"
+    let mono := (List.range (clockA.size - 1)).all (fun k => decide (clock k ≤ clock (k + 1)))
+    let d := batches.flatten.length
+    let base := extraL.length * cfg.nTries + d + 1
+    pure (Json.mkObj [
+      ("mono", Json.bool mono),
+      ("strict", Json.bool (alongRun cfg extra clock (timedOut cfg extra clock) (St.init seq0) batches)),
+      ("weak", Json.bool (alongRun cfg extra clock (timedOutWeak cfg extra clock) (St.init seq0) batches)),
+      ("iterations", jNat (iterations cfg extra clock (St.init seq0) batches)),
+      ("bound_strict", jNat base), ("bound_weak", jNat (2 * base))])
   | "check_log" =>
     let sp : Spec := { window := ← nat j "window", nTries := ← nat j "n_tries", nCmds := ← nat j "n_cmds",
                        timeouts := ← ints j "timeouts" }
